@@ -36,8 +36,8 @@ def gen(rng, tier):
     nrand = 40 if tier == "quick" else 2500
     gid = 0
     for ty in ("f64", "f32"):
-        for n in (2, 3, 4):
-            for i in range(nrand):
+        for n in (2, 3, 4, 5, 7):
+            for i in range(nrand if n <= 4 else max(8, nrand // 4)):
                 den = rng.choice([8, 16, 64])
                 floaty = i % 4 == 3
                 w1 = G.float_opinion(rng, ty, n, positive=False) if floaty else G.grid_opinion(rng, n, den)
